@@ -279,10 +279,10 @@ package model
 //@   requires newList != nil ==> typeIs(newList, *$LIST) && newList.(*$LIST) != nil
 //@   requires newList != nil && len(newList.(*$LIST).$F) > 0 ==> arr(r.$F) != arr(newList.(*$LIST).$F)
 //@   let OLD = r.$F
-//@   ensures[C02,C04,C11] engine-args: arg(UpdateList, 0) == remoteWrite && arg(UpdateList, 1) == OLD && arg(UpdateList, 3) == filterPartial && arg(UpdateList, 4) == filterDelete
+//@   ensures[C02,$C04,C11] engine-args: arg(UpdateList, 0) == remoteWrite && arg(UpdateList, 1) == OLD && arg(UpdateList, 3) == filterPartial && arg(UpdateList, 4) == filterDelete
 //@   ensures[C02] engine-new: (newList == nil ==> len(arg(UpdateList, 2)) == 0) && (newList != nil ==> arg(UpdateList, 2) == old(newList.(*$LIST).$F))
 //@   ensures[C02,C11] returns-engine-result: result1 == res(UpdateList, 1) && typeIs(result0, []$ELEM) && result0.([]$ELEM) == res(UpdateList, 0)
-//@   ensures[C02,C04,C11] stored-iff-success-and-persist: (result1 && persist ==> r.$F == res(UpdateList, 0)) && (!(result1 && persist) ==> r.$F == OLD)
+//@   ensures[C02,$C04,C11] stored-iff-success-and-persist: (result1 && persist ==> r.$F == res(UpdateList, 0)) && (!(result1 && persist) ==> r.$F == OLD)
 //@   modifies r.$F, cells($ELEM), wm
 
 // the per-type methods seen through the Updater interface from the generic store (spine.FunctionData[T]): T is the
